@@ -94,6 +94,13 @@ theorem lookup_removeAt (d : AMap Node) (segs : List String) (hv : (Node.cont d)
 theorem removeAt_frame (d : AMap Node) (ps qs : List String) (h : Diverge ps qs) :
     lookupSegs (removeAtSegs d ps) qs = lookupSegs d qs := lookupSegs_removeAtSegs_frame ps qs d h
 
+/-- frame (remove), every pair of paths: removing `ps` is invisible at every path whose step
+    sequence is not prefix-related to it, list-item components included — no side condition and
+    no padding (removal never creates or replaces a node). -/
+theorem removeAt_frame_steps (d : AMap Node) (ps qs : List String)
+    (h1 : ¬ pathSteps ps <+: pathSteps qs) (h2 : ¬ pathSteps qs <+: pathSteps ps) :
+    lookupSegs (removeAtSegs d ps) qs = lookupSegs d qs := lookupSegs_removeAtSegs_frame_steps d ps qs h1 h2
+
 /-- ListBuilder.Set: length, the written slot, every other slot (padding is null). -/
 theorem list_set_length (xs : List Node) (i : Nat) (v : Node) : (listSet xs i v).length = max xs.length (i + 1) :=
   listSet_length xs i v
